@@ -99,7 +99,7 @@ impl Read for SimSource {
         self.reads += 1;
         let mut st = self.stats.lock().unwrap();
         st.reads += 1;
-        if st.reads + st.seeks > step_budget() {
+        if st.reads + st.seeks > step_budget() + 200 * self.data.len() as u64 {
             st.budget_exceeded = true;
             return Err(io::Error::other("simdisk: step budget exhausted"));
         }
@@ -150,7 +150,7 @@ impl Seek for SimSource {
         self.seeks += 1;
         let mut st = self.stats.lock().unwrap();
         st.seeks += 1;
-        if st.reads + st.seeks > step_budget() {
+        if st.reads + st.seeks > step_budget() + 200 * self.data.len() as u64 {
             st.budget_exceeded = true;
             return Err(io::Error::other("simdisk: step budget exhausted"));
         }
